@@ -24,6 +24,8 @@ def run(ctx: core.Ctx):
     b2check.cc_fold(ctx, results, js)
     b2check.run_b2(ctx, lambda rng, th: [(gen.conn_check(rng, drops=True, repeat=True), rng.randrange(10 ** 9), 0) for _ in range(8000 if th else 150)],
                    ["C17"], label="connection_check() run twice on the same YncaApi object (the second run is judged), monitor only", accept=False)
+    b2check.run_b2(ctx, lambda rng, th: [(gen.conn_check_two(rng), rng.randrange(10 ** 9), rng.choice([0, 0, 3])) for _ in range(6000 if th else 120)],
+                   ["C17two"], label="two YncaApi objects checking two receivers at the same time (monitor only)", accept=False)
     ctx.info["rule"] = ("zone subsets x latencies {0, 60, 99, 100, 101, 150, 400 ms, 1.2..3 s} x first probe swallowed or not x silent / EOF / cannot open / link drop at or right after opening the port and in mid-check; each under a seeded schedule, some with extra line-level preemptions; a case = one schedule; non-trivial = distinct (spec, seed)")
     return ctx.finish()
 
